@@ -19,12 +19,16 @@ ACK_MS = _ack_ms()
 
 def gen_schedule(r, nsteps, weights=None, kinds="GPZDWZGBEF", max_live=3, allow_close=True, allow_reset=False):
     """abstract schedule: list of (event, arg)"""
-    w = dict(start=4, ack=4, rsp=3, rsp2=0.5, tick=3, cancel=1, badack=1, close=0.25, lost=0.15, reset=0.0)
+    w = dict(start=4, ack=4, rsp=3, rsp2=0.5, tick=3, cancel=1, badack=1, close=0.25, lost=0.15, reset=0.0, connect=0.0)
     if weights:
         w.update(weights)
+    if "connect" not in (weights or {}):
+        # `connect()` on the same object only makes sense once the link is gone: as likely as closing / losing it
+        w["connect"] = 1.5 * (w["close"] + w["lost"])
     if not allow_close:
         w["close"] = 0
         w["lost"] = 0
+        w["connect"] = 0
     if allow_reset:
         w["reset"] = max(w["reset"], 0.3)
     names = list(w)
@@ -32,6 +36,30 @@ def gen_schedule(r, nsteps, weights=None, kinds="GPZDWZGBEF", max_live=3, allow_
     for _ in range(nsteps):
         evs.append((r.choices(names, [w[n] for n in names])[0], r.random(), r.choice(kinds), r.choice([3000, 5000, 7000])))
     return evs
+
+
+def lifecycle_schedule(r, kinds="GPZDWBEF"):
+    """a schedule around the life cycle of the connection: traffic, then the link goes (close / loss, with or without a
+    deliberate reset in progress), `connect()` on the same object - possibly while an interrupted request still sits in its
+    acknowledgement wait -, traffic on the new connection; once or twice"""
+    def ev(name):
+        return (name, r.random(), r.choice(kinds), r.choice([3000, 5000, 7000, 9000]))
+
+    def traffic(n, names, weights):
+        return [ev(r.choices(names, weights)[0]) for _ in range(n)]
+    s = []
+    for _ in range(r.choice([1, 1, 2])):
+        s += traffic(r.randrange(2, 7), ["start", "ack", "rsp"], [4, 5, 1])
+        in_reset = r.random() < 0.35
+        if in_reset:
+            s.append(ev("reset"))
+        s.append(ev(r.choice(["close", "close", "lost"])))
+        s += traffic(r.randrange(0, 3), ["tick", "ack", "start", "close"], [2, 2, 2, 0.5])
+        s.append(ev("connect"))
+        if in_reset and r.random() < 0.8:
+            s.append(ev("reset"))
+        s += traffic(r.randrange(4, 12), ["start", "ack", "rsp", "tick", "cancel", "badack"], [4, 6, 3, 2, 0.7, 0.5])
+    return s
 
 
 class Trace:
@@ -77,6 +105,8 @@ def run_schedule(r, sched, drain=True, max_live=3):
                 elif e.startswith("RAISED"):
                     tr.raised.append((len(tr.steps), e))
                     canon.append(e)
+                elif e == "RECONNECTED":
+                    continue
                 else:
                     canon.append(e)
             wd = [c for c in canon if not c.startswith("D")]
@@ -153,6 +183,12 @@ def run_schedule(r, sched, drain=True, max_live=3):
                 tr.tokens.append("L")
                 w.lost()
                 record("lost", m)
+            elif ev == "connect":
+                if priv.get(w.api, "api", "uart", "?") is not None:
+                    continue            # `connect()` asserts that the object is not connected
+                tr.tokens.append("N")
+                w.reconnect()
+                record("connect", m)
             elif ev == "reset":
                 reset_on = not reset_on
                 tr.tokens.append("Z:%d" % int(reset_on))
@@ -363,9 +399,16 @@ def monitor_c20(ctx, tr):
     inp = dict(events=tr.tokens)
     closed_at = None
     in_reset = False
+    intervals = []      # (step of close, time of close, first step that is no longer "after that close")
     for s, (lab, st) in enumerate(zip(tr.labels, tr.steps)):
         if lab.startswith("reset:"):
             in_reset = lab.endswith("1")
+        if lab == "connect":
+            # `connect()` on the same object: the clauses about "after close" end here (a request interrupted by the
+            # close goes on with its leftover fragments on the new connection)
+            if closed_at is not None:
+                intervals.append((closed_at[0], closed_at[1], s))
+            closed_at = None
         if lab == "close":
             if in_reset:
                 continue        # listeners are kept during a deliberate reset
@@ -379,8 +422,9 @@ def monitor_c20(ctx, tr):
                 ctx.counterexample("request-after-close-accepted", dict(inp, step=s), "refused immediately", st, "a new request after close is not refused immediately")
                 return
     if closed_at is not None:
-        s0, t0 = closed_at
-        for s in range(s0, len(tr.steps)):
+        intervals.append((closed_at[0], closed_at[1], len(tr.steps)))
+    for (s0, t0, s1) in intervals:
+        for s in range(s0, s1):
             late = [e for e in tr.steps[s] if e.startswith("D") and tr.reqs[int(e[1:].split("=")[0])]["step"] <= s0]
             if tr.times[s] > t0 + ACK_MS and late:
                 ctx.counterexample("stranded-after-close", dict(inp, step=s, closed_at_ms=t0), "all requests done by %d ms" % (t0 + ACK_MS),
